@@ -44,6 +44,29 @@ def ring_cases(rng, n):
     return cases
 
 
+def mstripes_cases(rng, n):
+    """Metrics.add / get / Clear on the real striped counters: hashes in every residue class mod 25, deltas that wrap"""
+    cases = []
+    big = [(1 << 64) - 1, (1 << 63), (1 << 64) - 5, 1 << 62]
+    for j in range(n):
+        ops = []
+        for _ in range(rng.randrange(10, 80)):
+            r = rng.random()
+            t = rng.randrange(11)
+            if r < 0.85:
+                h = rng.choice([rng.getrandbits(64), rng.randrange(60), (1 << 64) - 1 - rng.randrange(30), 24, 49])
+                d = rng.choice([1, 1, rng.randrange(1000), rng.choice(big)])
+                ops.append("add %d %d %d" % (t, h, d))
+            elif r < 0.95:
+                ops.append("get %d" % t)
+            else:
+                ops.append("clear")
+                ops.append("get %d" % t)
+        ops += ["get %d" % t for t in range(11)]
+        cases.append(Case("ms%d" % j, "mstripes", [], ops, tags=["profile:mstripes"]))
+    return cases
+
+
 class C17(CacheProp):
     pid = "C17"
     profiles = ["basic", "internal", "tinybuf", "ttl", "roomy", "should", "basic"]
@@ -57,9 +80,11 @@ class C17(CacheProp):
         cases = cachegen.gen_cases(rng, n, ctx, self.profiles)
         for c in cases:
             c.args[3] = "1"        # metrics on
-        return cases + ring_cases(rng, max(6, n // 8))
+        return cases + ring_cases(rng, max(6, n // 8)) + mstripes_cases(rng, max(4, n // 25))
 
     def annotate(self, case, impl_lines):
+        if case.comp == "mstripes":
+            return case
         if case.comp != "ring":
             return super().annotate(case, impl_lines)
         # the doorkeeper's size / locs (float arithmetic in the code) and cap(itemsCh) as the implementation reports
@@ -77,9 +102,11 @@ class C17(CacheProp):
         return Case(case.id, case.comp, args, ops, case.tags)
 
     def canon(self, case, i, line):
-        return line if case.comp == "ring" else super().canon(case, i, line)
+        return line if case.comp in ("ring", "mstripes") else super().canon(case, i, line)
 
     def nontrivial(self, case, il):
+        if case.comp == "mstripes":
+            return True
         if case.comp == "ring":
             return any(l.startswith("batch") or "drain dropped" in l for l in il)
         return super().nontrivial(case, il)
@@ -127,7 +154,29 @@ class C17(CacheProp):
                             n, t, got[int(t)], pushed.get(int(t), 0)))
         return fails
 
+    def mstripes_oracle(self, case, il):
+        """independent of the model: a counter reads the sum of the deltas added since the last Clear, modulo 2^64,
+        whatever the hashes; 256 slots; no panic"""
+        fails = []
+        tot = [0] * 11
+        for n, (o, l) in enumerate(zip(case.ops, il)):
+            f, r = o.split(), l.split()
+            if f[0] == "clear":
+                tot = [0] * 11
+                continue
+            t = int(f[1])
+            if f[0] == "add":
+                tot[t] = (tot[t] + int(f[3])) % M64
+            if len(r) < 2 or not r[0].isdigit():
+                fails.append("op %d `%s`: %s" % (n, o, l))
+            elif int(r[0]) != tot[t]:
+                fails.append("op %d `%s`: the counter reads %s, the deltas added since the last Clear sum to %d (mod 2^64)" % (
+                    n, o, r[0], tot[t]))
+        return fails
+
     def oracle(self, case, il):
+        if case.comp == "mstripes":
+            return self.mstripes_oracle(case, il)
         if case.comp == "ring":
             return self.ring_oracle(case, il)
         fails = []
